@@ -5,6 +5,8 @@ B3 pass over recorded propagations (harness.propagation_util).
 The expectation of every comparison is what TLC printed (exact rationals of the ledger, exact reciprocal figures
 of merit); Python converts them to float and compares within a relative tolerance.
 """
+import sys
+from pathlib import Path
 import math
 import zlib
 from concurrent.futures import ThreadPoolExecutor
@@ -230,7 +232,75 @@ def replay(chk, behaviours, what='ledger'):
     chk.cov['b2_worst_relative_deviation'] = worst[0]
 
 
+# clauses of Trace_Propagation that hold for an ARBITRARY spectrum handed to an element (no launch / filter / receiver context)
+STATELESS = {'Conservation', 'SharesInUnitInterval', 'OpGrammar', 'NeverImprovesGsnr', 'NeverImprovesOsnr', 'NeverImprovesNli',
+             'PassiveUnchanged', 'KeepsNli', 'KeepsOsnr', 'MultiBandPartition'}
+
+
+def suite_traces(chk, clauses, pid):
+    """DESIGN 2.6 source 4 (thorough tier): the repository's own test-suite is run on a scratch copy of the working tree with
+    harness.pytest_plugin installed; every element crossing its tests perform becomes a two-spectrum trace judged by
+    Trace_Propagation for the clauses that need no context.  What the maintainers' tests exercise but do not assert is
+    checked against the specification."""
+    import json
+    import os
+    import shutil
+    import subprocess
+    import tempfile
+    import time
+    from harness.gnpy_util import REPO
+    from harness import tlc
+    t0 = time.time()
+    work = Path(tempfile.mkdtemp(prefix=f'suite-{pid.lower()}-', dir=tlc.BUILD))
+    try:
+        tree = work / 'tree'
+        shutil.copytree(REPO, tree, ignore=shutil.ignore_patterns('.git', '__pycache__', '*.pyc', '.pytest_cache'))
+        out = work / 'suite.ndjson'
+        env = dict(os.environ, VERIF_PYTEST_TRACE=str(out), PYTHONPATH=f'{tree}:{tlc.ROOT}', VERIF_PYTEST_PER_TEST='15',
+                   VERIF_PYTEST_MAX='300')
+        env.pop('VERIF_MUTANT', None)
+        r = subprocess.run([sys.executable, '-m', 'pytest', '-q', '-p', 'no:cacheprovider', '-p', 'harness.pytest_plugin',
+                            '--timeout=900', '-rf', '-n', '8', 'tests'], cwd=tree, env=env, capture_output=True, text=True,
+                           timeout=3000)
+        tail = (r.stdout.strip().splitlines() or [''])[-1]
+        failed = sorted({ln.split(' - ')[0].replace('FAILED ', '') for ln in r.stdout.splitlines() if ln.startswith('FAILED ')})
+        traces, stats = [], []
+        for f in sorted(work.glob('suite.ndjson*')):
+            if f.name.endswith('.stats'):
+                stats.append(json.loads(f.read_text()))
+            else:
+                traces += [json.loads(ln) for ln in f.read_text().splitlines() if ln.strip()]
+        if not traces:
+            raise Machinery(f'test-suite recording produced no trace: {tail}\n{r.stderr[-1500:]}')
+        for k, t in enumerate(traces):
+            t['name'] = f'{t["name"]}|{k}'
+        verdicts = pu.judge(traces, chk, tag=f'{pid.lower()}-suite')
+        ok = 0
+        for t in traces:
+            mine = [(st, c) for st, c in verdicts[t['name']] if c in clauses and c in STATELESS]
+            chk.case(('suite', t['name'].split('#')[0], t['ev'][-1]['cls']))
+            if not mine:
+                ok += 1
+            for st, c in mine:
+                cls = t['ev'][st - 1]['cls'] if st >= 1 else 'request'
+                chk.violation(f'B3|suite|{c}|{cls}', dict(trace=t['name'], step=st, clause=c, element_class=cls))
+        chk.traces += ok
+        by_cls = {}
+        for t in traces:
+            by_cls[t['ev'][-1]['cls']] = by_cls.get(t['ev'][-1]['cls'], 0) + 1
+        chk.cov['suite_traces'] = dict(crossings_judged=len(traces), by_class=by_cls, test_suite_tail=tail, tests_failing_in_the_scratch_copy=failed,
+                                       tests_seen=sum(x['tests'] for x in stats),
+                                       crossings_dropped_by_cap=sum(x['dropped_by_cap'] for x in stats),
+                                       not_projectable=sum(x['not_projectable'] for x in stats),
+                                       wall_s=round(time.time() - t0, 1),
+                                       clauses=sorted(set(clauses) & STATELESS))
+    finally:
+        shutil.rmtree(work, ignore_errors=True)
+
+
 def run_b3(chk, clauses, pid):
+    if chk.tier == 'thorough':
+        suite_traces(chk, clauses, pid)
     traces, sides = pu.collect(chk)
     verdicts = pu.judge(traces, chk, tag=pid.lower())
     ok = pu.report(chk, traces, sides, verdicts, clauses, pid)
